@@ -645,10 +645,14 @@ func ruleConv(c *Ctx) {
 // argument as the engine prints it. Nil when the function is a baseline function, has no module
 // caller, or an argument has no printable form.
 func (pe *PEngine) callerKeys(p *pci, key string) []string {
-	if inlineHelper == nil || !inlineHelper(p.fn) {
+	return pe.callerKeysFor(p.fn, key, p.openSites, 0)
+}
+
+func (pe *PEngine) callerKeysFor(fn *ssa.Function, key string, openSites []ssa.CallInstruction, depth int) []string {
+	if inlineHelper == nil || !inlineHelper(fn) || depth > 3 {
 		return nil
 	}
-	node := pe.P.CG().Nodes[p.fn]
+	node := pe.P.CG().Nodes[fn]
 	if node == nil {
 		return nil
 	}
@@ -659,10 +663,10 @@ func (pe *PEngine) callerKeys(p *pci, key string) []string {
 		if !inScope(pkgPathOf(caller)) || e.Site == nil {
 			continue
 		}
-		if p.openSites != nil {
+		if openSites != nil {
 			// a length precondition covers the other call sites: only the open ones need a reviewed argument
 			isOpen := false
-			for _, s := range p.openSites {
+			for _, s := range openSites {
 				if s == e.Site {
 					isOpen = true
 				}
@@ -672,24 +676,39 @@ func (pe *PEngine) callerKeys(p *pci, key string) []string {
 			}
 		}
 		cpf := pe.pf(caller)
-		k := strings.Replace(key, "/"+funcName(p.fn)+"/", "/"+funcName(caller)+"/", 1)
+		k := strings.Replace(key, "/"+funcName(fn)+"/", "/"+funcName(caller)+"/", 1)
 		if k == key {
-			k = strings.Replace(key, funcName(p.fn)+"/", funcName(caller)+"/", 1)
+			k = strings.Replace(key, funcName(fn)+"/", funcName(caller)+"/", 1)
 		}
 		args := e.Site.Common().Args
 		// two-step replacement so that an argument printed as "p1" is not replaced again
-		for i := range p.fn.Params {
+		for i := range fn.Params {
 			k = regexp.MustCompile(fmt.Sprintf(`\bp%d\b`, i)).ReplaceAllString(k, fmt.Sprintf("\x00%d\x00", i))
 		}
-		for i := range p.fn.Params {
+		ok := true
+		for i := range fn.Params {
 			if i >= len(args) {
-				return nil
+				ok = false
+				break
 			}
 			k = strings.ReplaceAll(k, fmt.Sprintf("\x00%d\x00", i), descVN(cpf.get(args[i]), 0))
 		}
-		if !seen[k] {
-			seen[k] = true
-			out = append(out, k)
+		if !ok {
+			return nil
+		}
+		ks := []string{k}
+		if inlineHelper(caller) {
+			// the caller is itself a helper outside the baseline: the construct is known in the terms of its callers
+			ks = pe.callerKeysFor(caller, k, nil, depth+1)
+			if ks == nil {
+				return nil
+			}
+		}
+		for _, kk := range ks {
+			if !seen[kk] {
+				seen[kk] = true
+				out = append(out, kk)
+			}
 		}
 	}
 	return out
